@@ -37,7 +37,10 @@ use mdk_storage_traits::welcomes::types::{ProcessedWelcomeState, WelcomeState};
 use mdk_storage_traits::{GroupId, MdkStorageProvider};
 use nostr::base64::Engine;
 use nostr::base64::engine::general_purpose::STANDARD as BASE64;
-use nostr::{Event, EventBuilder, EventId, Kind, PublicKey, RelayUrl, Tags, UnsignedEvent};
+use nostr::{Event, EventBuilder, EventId, Kind, PublicKey, RelayUrl, Tag, TagKind, TagStandard, Tags, UnsignedEvent};
+use openmls::prelude::{CredentialWithKey, MlsGroup, MlsGroupCreateConfig};
+use openmls_basic_credential::SignatureKeyPair;
+use tls_codec::Serialize as _;
 use openmls_traits::OpenMlsProvider;
 
 use crate::world::{Mdk, World};
@@ -291,6 +294,7 @@ impl Inv {
         let bad = match t[0] {
             "process" | "accept" | "decline" => u(t[2]) as usize >= self.welcomes.len(),
             "invite" | "commit" | "rename" | "remove" | "probe" => u(t[2]) as usize >= self.groups.len(),
+            "forge" => u(t[2]) as usize >= self.groups.len() || u(t[4]) as usize >= self.groups.len(),
             "deliver" => u(t[2]) as usize >= self.w.events.len(),
             _ => false,
         };
@@ -345,6 +349,54 @@ impl Inv {
                         format!("ok ev={ev} w={} {}", if ws.is_empty() { "-".into() } else { ws.join(",") }, mv.map(|(e, t, m)| format!("epoch={e} tok={t} members={m}")).unwrap_or_default())
                     }
                     Err(e) => err_kind(&e),
+                }
+            }
+            "forge" => {
+                // forge <i> <g> <kp> <template g'>: client i (a member of its own group g', NOT of g) creates,
+                // with OpenMLS directly, a NEW MLS group that carries the MLS group id of g and the group data
+                // of g', adds the owner of key package kp and produces the welcome rumor
+                let i = u(t[1]) as usize;
+                let gid = self.groups[u(t[2]) as usize].clone();
+                let tmpl = self.groups[u(t[4]) as usize].clone();
+                let kp_ev = self.w.kps[u(t[3]) as usize].1.clone();
+                let pk = self.w.clients[i].keys.public_key();
+                let r: Result<(UnsignedEvent, Vec<u8>, u64, usize), String> = self.with(i, |_, mdk| {
+                    with_mdk!(mdk, |m| {
+                        (|| -> Result<(UnsignedEvent, Vec<u8>, u64, usize), String> {
+                            let t = m.load_mls_group(&tmpl).map_err(|e| format!("{e:?}"))?.ok_or("no template group")?;
+                            let leaf = t.own_leaf().ok_or("no own leaf")?.clone();
+                            let signer = SignatureKeyPair::read(m.provider.storage(), leaf.signature_key().as_slice(), t.ciphersuite().signature_algorithm())
+                                .ok_or("no signer")?;
+                            let cfg = MlsGroupCreateConfig::builder()
+                                .ciphersuite(t.ciphersuite())
+                                .use_ratchet_tree_extension(true)
+                                .capabilities(leaf.capabilities().clone())
+                                .with_group_context_extensions(t.extensions().clone())
+                                .build();
+                            let kp = m.parse_key_package(&kp_ev).map_err(|e| format!("{e:?}"))?;
+                            let mut g = MlsGroup::new_with_group_id(&m.provider, &signer, &cfg, gid.inner().clone(), CredentialWithKey { credential: leaf.credential().clone(), signature_key: leaf.signature_key().clone() })
+                                .map_err(|e| format!("{e:?}"))?;
+                            let (_, welcome_out, _) = g.add_members(&m.provider, &signer, &[kp]).map_err(|e| format!("{e:?}"))?;
+                            g.merge_pending_commit(&m.provider).map_err(|e| format!("{e:?}"))?;
+                            let bytes = welcome_out.tls_serialize_detached().map_err(|e| format!("{e:?}"))?;
+                            let tags = vec![
+                                Tag::from_standardized(TagStandard::Relays(vec![relay(1), relay(2)])),
+                                Tag::event(kp_ev.id),
+                                Tag::custom(TagKind::Custom("encoding".into()), ["base64"]),
+                            ];
+                            let mut rumor = EventBuilder::new(Kind::MlsWelcome, BASE64.encode(bytes)).tags(tags).build(pk);
+                            rumor.ensure_id();
+                            Ok((rumor, g.epoch_authenticator().as_slice().to_vec(), g.epoch().as_u64(), g.members().count()))
+                        })()
+                    })
+                });
+                match r {
+                    Err(e) => format!("err:{}", e.chars().filter(|c| c.is_alphanumeric()).take(40).collect::<String>()),
+                    Ok((rumor, auth, epoch, members)) => {
+                        let w = self.push_welcome(rumor);
+                        let tok = self.token(auth);
+                        format!("ok w={w} epoch={epoch} tok={tok} members={members}")
+                    }
                 }
             }
             "process" => {
